@@ -6,7 +6,7 @@
    hostile bytes are decided by the correspondence/oracle streams of the `codec` engine only -
    the property is therefore labelled partial for that part (DESIGN.md). *)
 From Coq Require Import List ZArith NArith Bool Permutation.
-From PM Require Import Base.Bytes Store.KV Num.IntModel Num.IntProofs App.Model App.KeyProofs Codec.CodecModel Codec.CodecProofs.
+From PM Require Import Base.Bytes Store.KV Num.IntModel Num.IntProofs App.Model App.KeyProofs Codec.CodecModel Codec.CodecProofs Codec.DecText.
 Import ListNotations.
 Local Open Scope Z_scope.
 
@@ -21,6 +21,11 @@ Theorem C20_int_unmarshal z : (in_int z /\ int_unmarshal z = Some z) \/ (~ in_in
 Proof. exact (int_unmarshal_exact z). Qed.
 Theorem C20_uint_unmarshal z : (in_uint z /\ uint_unmarshal z = Some z) \/ (~ in_uint z /\ uint_unmarshal z = None).
 Proof. exact (uint_unmarshal_exact z). Qed.
+
+(* the text form of a decimal (Dec.String: eighteen fractional digits, zero padding and placement of the point done by
+   hand) parses back (NewDecFromStr) to exactly the same value, for every value *)
+Theorem C20_dec_text_roundtrip z : text_to_dec (dec_to_text z) = Some z.
+Proof. exact (dec_text_roundtrip z). Qed.
 
 (* sign bytes: the same logical content gives the same bytes ... *)
 Theorem C20_object_field_order_irrelevant l1 l2 :
@@ -73,6 +78,7 @@ Print Assumptions C20_uvarint_roundtrip.
 Print Assumptions C20_frame_roundtrip.
 Print Assumptions C20_int_unmarshal.
 Print Assumptions C20_uint_unmarshal.
+Print Assumptions C20_dec_text_roundtrip.
 Print Assumptions C20_object_field_order_irrelevant.
 Print Assumptions C20_same_content_same_canonical_object.
 Print Assumptions C20_sign_bytes_canonical.
